@@ -14,7 +14,7 @@ from ..refs import tlvcfg
 ID = "C11"
 LEVEL = "exploration"
 RULE = (
-    "history = sequence of operations over {set_config(c0..c7), derive_comments(c), derive_auth_blocks(c, ecc|cust), append / insert-at-0 / insert-in-middle "
+    "history = sequence of operations over {set_config(c0..c11), derive_comments(c), derive_auth_blocks(c, ecc|cust), append / insert-at-0 / insert-in-middle "
     "of a firmware component with or without TYPE tag, write+read back (replacing the object), foreign comment edit, write-and-check keeping the same object}; ALL sequences up to length 4 (quick) / 5 "
     "(thorough) over a reduced 10-letter alphabet plus seeded random sequences of length 5..25 over the full alphabet; the model is compared with the real "
     "objects after every operation. distinct = digest of the operation sequence; non-trivial = contains at least one set_config or derive operation"
@@ -43,6 +43,10 @@ CONFIGS = [
 # same project identifier as CONFIGS[0] / CONFIGS[5], other device settings / bus flag / security code
 CONFIGS.append({(K, 1): (10234).to_bytes(4, "big"), (K, 5): (5678).to_bytes(2, "big"), (K, 2): (6789).to_bytes(2, "big"), (K, 7): b"\x09", (K, 6): b"Testname", (K, 4): b"\x02", (K, 3): b"Dev2", CODE: bytes([0x46] * 8)})
 CONFIGS.append({(K, 1): (42).to_bytes(4, "big"), (K, 5): (1).to_bytes(2, "big"), (K, 2): (3).to_bytes(2, "big"), (K, 7): b"\x01", (K, 6): b"P", (K, 4): b"\x06", (K, 3): b"D (version 07)", (K, 0x20): b"\x01"})
+# identifiers wider than the canonical text form (version >= 100, customer >= 100000, project / device >= 10000): their
+# printed form is not parseable as an identifier, which must not matter to a later derivation
+CONFIGS.append({(K, 1): (123456).to_bytes(4, "big"), (K, 5): (65535).to_bytes(2, "big"), (K, 7): b"\xff", (K, 6): b"Wide", CODE: bytes([0x47] * 8)})
+CONFIGS.append({(K, 1): (7).to_bytes(2, "big"), (K, 2): (12345).to_bytes(2, "big"), (K, 4): b"\xc8", (K, 3): b"WideDev", (K, 7): b"\x64", (K, 6): b"V100"})
 NCFG = len(CONFIGS)
 CUST_KEY = bytes([0x12, 0x34] * 8)
 
